@@ -337,6 +337,18 @@ func c11Ops() []concOp {
 			}
 			return fmt.Sprint(errs, q.ColumnNames())
 		}},
+		{"terminal operations on shared failed frames", false, func(q qframe.QFrame, y func()) string {
+			var out []string
+			for _, f := range c11FailedFrames {
+				var b bytes.Buffer
+				e1 := f.ToCSV(&b)
+				e2 := f.ToJSON(&b)
+				e3 := f.ToSQL(nil)
+				g := f.GroupBy(groupby.Columns("k")).Aggregate(qframe.Aggregation{Fn: "sum", Column: "i"})
+				out = append(out, fmt.Sprint(e1, "|", e2, "|", e3, "|", g.Err, "|", f.Err, "|", f.Slice(0, 1).Err, "|", f.String(), b.Len()))
+			}
+			return strings.Join(out, "\n")
+		}},
 		{"String", false, func(q qframe.QFrame, y func()) string { return q.String() }},
 		{"Equals", false, func(q qframe.QFrame, y func()) string {
 			a, b := q.Equals(q.Sort(qframe.Order{Column: "i"}))
@@ -389,7 +401,17 @@ var c11derived map[string]qframe.QFrame
 
 // c11Derived: one shared frame per process, derived from base by adding columns twice
 func c11Derived(base qframe.QFrame) qframe.QFrame {
-	return base.Copy("c2", "i").Apply(qframe.Instruction{Fn: 2.5, DstCol: "c3"})
+	// ... and sorted: the one frame both operations run on has an index that is not ascending
+	return base.Copy("c2", "i").Apply(qframe.Instruction{Fn: 2.5, DstCol: "c3"}).Sort(qframe.Order{Column: "k", Reverse: true}, qframe.Order{Column: "i"})
+}
+
+// one failed frame per process (an invalid like pattern on the string column, an unknown column, a failed Apply), shared
+// by all operations: a failed frame is a value like any other
+var c11FailedFrames = []qframe.QFrame{
+	c11Base().Filter(qframe.Filter{Column: "s", Comparator: "like", Arg: "(%"}),
+	c11Base().Filter(qframe.Filter{Column: "e", Comparator: "ilike", Arg: "(%"}),
+	c11Base().Sort(qframe.Order{Column: "nocol"}),
+	c11Base().Apply(qframe.Instruction{Fn: func(s *string) int { return 0 }, DstCol: "n", SrcCol1: "i"}).Copy("x", "i"),
 }
 
 type concCase struct {
